@@ -26,7 +26,7 @@ fn labels() -> Vec<Vec<u8>> {
 }
 
 fn versions() -> Vec<u64> {
-    vec![1, 2, 3, 255, 256, (1u64 << 32) - 1, 1u64 << 32, u64::MAX]
+    vec![1, 2, 3, 255, 256, (1u64 << 32) - 1, 1u64 << 32, (1u64 << 63) - 1, 1u64 << 63, (1u64 << 63) + 1, u64::MAX]
 }
 
 fn fr(f: bool) -> VersionFreshness {
@@ -113,6 +113,32 @@ async fn sweep<TC: ModelCfg>(rep: &Report, quick: bool) {
                     for &ov in &vs {
                         if ov != v && client_verifies::<TC>(&km.pk, l, f, ov, &pb, &n1).await {
                             rep.violation(format!("{}/verifies_for_another_version", TC::NAME), json!({"ctx": ctx(), "other_version": ov}));
+                        }
+                    }
+                    // every single-bit flip of the version: must not verify, and must be a different node label
+                    for bit in 0..64 {
+                        rep.eval(1);
+                        let ov = v ^ (1u64 << bit);
+                        if client_verifies::<TC>(&km.pk, l, f, ov, &pb, &n1).await {
+                            rep.violation(format!("{}/verifies_for_version_with_one_bit_flipped", TC::NAME), json!({"ctx": ctx(), "bit": bit, "other_version": ov}));
+                        }
+                        if bit >= 56 || li == 1 {
+                            let on = vrf.get_node_label::<TC>(&al, fr(f), ov).await.unwrap();
+                            if on == n1 {
+                                rep.violation(format!("{}/node_label_ignores_a_version_bit", TC::NAME), json!({"ctx": ctx(), "bit": bit}));
+                            }
+                        }
+                    }
+                    // every single-bit flip of (the first and last 2 bytes of) the label
+                    let lb: Vec<usize> = (0..l.len().min(2)).chain(l.len().saturating_sub(2)..l.len()).collect();
+                    for &bi in &lb {
+                        for bit in 0..8 {
+                            rep.eval(1);
+                            let mut ol = l.clone();
+                            ol[bi] ^= 1 << bit;
+                            if client_verifies::<TC>(&km.pk, &ol, f, v, &pb, &n1).await {
+                                rep.violation(format!("{}/verifies_for_label_with_one_bit_flipped", TC::NAME), json!({"ctx": ctx(), "byte": bi, "bit": bit}));
+                            }
                         }
                     }
                     // every single-bit flip of the claimed node label
